@@ -102,3 +102,12 @@ Definition run_read_pdb (lines : list str) (model : option Z) : val :=
   | Raise e => VE (exn_name e)
   | Ok atoms => run_read atoms model
   end.
+
+(* ---------------------------------------------------------------- residue grouping of the table-level reader (C15) *)
+From RV Require Import Model.Group2.
+(* residues as lists of atom serial numbers, listed by first occurrence *)
+Definition run_residues_v2 (lines : list str) : val :=
+  vlist (vlist (fun p => voz (p_serial p))) (residues_v2 (parse_pdb lines)).
+(* connected_residues of one chain: residues 0..n-1 in (number, insertion code) order, links[i] = O3'(i)-P(i+1) test *)
+Definition run_segments (links : list bool) (n : nat) : val :=
+  vlist (vlist (fun i => VZ (Z.of_nat i))) (segments (fun i _ => nth i links false) (seq 0 n)).
